@@ -268,7 +268,7 @@ Lemma poly_result_geom o d r :
     (flat_map ps_inner (map (poly_step d (r_tags r)) (r_members r)))
     (fold_right Z.add 0 (map ps_cnt (map (poly_step d (r_tags r)) (r_members r)))).
 Proof.
-  unfold poly_result, poly_geom.
+  unfold poly_result, poly_result_with, poly_geom.
   destruct (flat_map ps_outer (map (poly_step d (r_tags r)) (r_members r))) as [|[s w] [|q rest]];
     cbn [map fst is_nil andb];
     repeat match goal with
